@@ -661,6 +661,13 @@ end Dds.C15
 namespace Dds.C15
 open Dds Dds.TrapEnc
 
+/-- a `w × h` view of `bpp` bytes per pixel with `extra` bytes of row padding (0: contiguous), for the `example`s -/
+def exView (w h bpp extra : Nat) : View := ⟨0, (w * bpp + extra) * (h - 1) + w * bpp, w, h, bpp, w * bpp + extra⟩
+/-- a row wider than the staging buffer of `uncompressed_universal`, whatever its size is tuned to -/
+def exWide : Nat := SrcConsts.UNIVERSAL_BUFFER_PIXELS + 88
+/-- a row of which two no longer fit the staging buffer -/
+def exHalf : Nat := SrcConsts.UNIVERSAL_BUFFER_PIXELS / 2 + 44
+
 /-- the tuning constants of the loops (staging buffers, report cadences), as extracted from the source by
 `tools/extract_consts.py`, satisfy what the theorems below need: every staging buffer holds at least one pixel of
 every colour / encoded format (so `chunks(n)` never gets `n = 0` and `buffer_pixels - fill_pixels` makes progress), the
@@ -702,44 +709,54 @@ theorem chunk_loops_trapfree (v : View) (c : Color) (hv : VOK v c) (hc : c.OK) :
   have hbp : 1 ≤ bufLen / epp := (Nat.one_le_div_iff (by omega)).2 h2
   exact ⟨forEachChunkT_eq hv h1 h2 h3 h4, chunkPx_length hbp, chunkPx_bounds hbp⟩
 
-/-- non-vacuity, and the chunking is visible: a 600 × 3 RGBA-U8 view into a 2-byte format through
-`uncompressed_universal` — contiguous and with 8 bytes of row padding — gives the four writes of `EncLen.lean`; a
-1400-pixel strided row spans three fills of the 512-pixel buffer; the 1 × 1, the 0 × 0 view and a 1-row view with an
-absurd pitch are fine; a view that violates the invariant (data shorter than its rows) IS a panic of the mirror -/
+/-- non-vacuity (stated with the constants of the source, so that retuning a buffer does not break an `example`): a
+3-row RGBA-U8 view wider than the staging buffer into a 2-byte format through `uncompressed_universal` — contiguous and
+with 8 bytes of row padding — gives the writes of `EncLen.lean`; so does a row that spans three fills of the buffer;
+the 1 × 1 view with an absurd pitch and the 0 × 0 view are fine; a view that violates the invariant (data shorter than
+its rows) IS a panic of the mirror -/
 example :
-    uncompressedUniversalT ⟨0, 7200, 600, 3, 4, 2400⟩ ⟨.rgba, 1⟩ false 2 2 = some [1024, 1024, 1024, 528] ∧
-    uncompressedUniversalT ⟨0, 7216, 600, 3, 4, 2408⟩ ⟨.rgba, 1⟩ false 2 2 = some [1024, 1024, 1024, 528] ∧
-    uncompressedUniversalT ⟨0, 11208, 1400, 2, 4, 5608⟩ ⟨.rgba, 1⟩ false 2 2 =
-      some [1024, 1024, 1024, 1024, 1024, 480] ∧
+    uncompressedUniversalT (exView exWide 3 4 0) ⟨.rgba, 1⟩ false 2 2 =
+      some (chunksContig (exWide * 3) SrcConsts.UNIVERSAL_BUFFER_PIXELS 2) ∧
+    uncompressedUniversalT (exView exWide 3 4 8) ⟨.rgba, 1⟩ false 2 2 =
+      some (chunksRows exWide 3 SrcConsts.UNIVERSAL_BUFFER_PIXELS 2) ∧
+    uncompressedUniversalT (exView (2 * exWide + 200) 2 4 8) ⟨.rgba, 1⟩ false 2 2 =
+      some (chunksRows (2 * exWide + 200) 2 SrcConsts.UNIVERSAL_BUFFER_PIXELS 2) ∧
+    2 ≤ (chunksRows exWide 3 SrcConsts.UNIVERSAL_BUFFER_PIXELS 2).length ∧
     uncompressedUniversalT ⟨0, 16, 1, 1, 16, 9223372036854775807⟩ ⟨.rgba, 4⟩ true 16 4 = some [16] ∧
     uncompressedUniversalT ⟨0, 0, 0, 0, 4, 0⟩ ⟨.rgba, 1⟩ false 2 2 = some [] ∧
-    copyDirectlyT ⟨0, 28808, 600, 3, 16, 9604⟩ ⟨.rgba, 4⟩ =
-      some [4096, 4096, 4096, 4096, 4096, 4096, 4096, 128] ∧
-    uncompressedUntypedT ⟨0, 12008, 1500, 2, 4, 6008⟩ ⟨.rgba, 1⟩ (.convert ⟨.rgb, 1⟩ false) = some [4095, 4095, 810] ∧
+    copyDirectlyT (exView 600 3 16 4) ⟨.rgba, 4⟩ = some (chunksRows 600 3 (SrcConsts.COPY_BUFFER_BYTES / 16) 16) ∧
+    uncompressedUntypedT (exView 1500 2 4 8) ⟨.rgba, 1⟩ (.convert ⟨.rgb, 1⟩ false) =
+      some (chunksRows 1500 2 (SrcConsts.UNTYPED_BUFFER_BYTES / 3) 3) ∧
     uncompressedUniversalT ⟨0, 7000, 600, 3, 4, 2400⟩ ⟨.rgba, 1⟩ false 2 2 = none := by
   decide +kernel
 
 /-- the hypotheses are satisfiable: the views of the example satisfy `VOK` (shown for the strided one), and a
 colour-converting closure fits its input -/
-example : VOK ⟨0, 7216, 600, 3, 4, 2408⟩ ⟨.rgba, 1⟩ ∧ (⟨.rgba, 1⟩ : Color).OK ∧
+example : VOK ⟨0, 7216, 600, 3, 4, 2408⟩ ⟨.rgba, 1⟩ ∧ exView 600 3 4 8 = ⟨0, 7216, 600, 3, 4, 2408⟩ ∧ (⟨.rgba, 1⟩ : Color).OK ∧
     (UntypedLine.convert ⟨.rgb, 1⟩ false).Fits ⟨.rgba, 1⟩ :=
   ⟨⟨⟨by decide, by decide, by decide, by decide, by decide, fun h => by simp at h, by decide, fun _ => by decide⟩,
-    rfl, by decide, by decide⟩, Or.inl rfl, rfl, fun h => by cases h⟩
+    rfl, by decide, by decide⟩, rfl, Or.inl rfl, rfl, fun h => by cases h⟩
 
 /-- **seed C15g would have failed `chunk_loops_trapfree`.**  `Seeds.uncompressedUniversalT_C15g` is
 `uncompressed_universal` over the mutated strided branch of `/verif/seeded/C15g` ("flush if the row no longer fits,
-then copy the whole row"): a strided 600-pixel row panics (`buffer[..600]` of 512), and even where it does not panic
-(300 × 3) the chunks are not those of the loop that exists; contiguous input is untouched.  (A strided 300-pixel image
-of more than 2048 rows also trips the progress `debug_assert!` in the variant — one chunk per row, more chunks than
-`chunk_count` — `#eval` gives `none` for 300 × 5000; left out of the `example` because the kernel needs 10 s for it.)  Seed C12i (head / rest rewrite
-with one flush per row) does not panic but writes 2528 instead of 5600 bytes for a 1400 × 2 strided image. -/
+then copy the whole row"): a strided row wider than the staging buffer panics (`buffer[..600]` of 512), and even where
+it does not panic (rows of which two do not fit: one chunk per row) the chunks are not those of the loop that exists;
+contiguous input is untouched.  (A strided 300-pixel image of more than 2048 rows also trips the progress
+`debug_assert!` in the variant — more chunks than `chunk_count` —: `#eval` gives `none` for 300 × 5000; left out of
+the `example` because the kernel needs 10 s for it.)  Seed C12i (head / rest rewrite with one flush per row) does not
+panic but loses the middle part of a row that spans three fills: fewer bytes than `surface_bytes`. -/
 example :
-    Seeds.uncompressedUniversalT_C15g ⟨0, 7216, 600, 3, 4, 2408⟩ ⟨.rgba, 1⟩ false 2 2 = none ∧
-    Seeds.uncompressedUniversalT_C15g ⟨0, 3616, 300, 3, 4, 1208⟩ ⟨.rgba, 1⟩ false 2 2 = some [600, 600, 600] ∧
-    uncompressedUniversalT ⟨0, 3616, 300, 3, 4, 1208⟩ ⟨.rgba, 1⟩ false 2 2 = some [1024, 776] ∧
-    Seeds.uncompressedUniversalT_C15g ⟨0, 7200, 600, 3, 4, 2400⟩ ⟨.rgba, 1⟩ false 2 2 =
-      some [1024, 1024, 1024, 528] ∧
-    Seeds.uncompressedUniversalT_C12i ⟨0, 11208, 1400, 2, 4, 5608⟩ ⟨.rgba, 1⟩ false 2 2 = some [1024, 1024, 480] := by
+    Seeds.uncompressedUniversalT_C15g (exView exWide 3 4 8) ⟨.rgba, 1⟩ false 2 2 = none ∧
+    Seeds.uncompressedUniversalT_C15g (exView exHalf 3 4 8) ⟨.rgba, 1⟩ false 2 2 =
+      some (List.replicate 3 (exHalf * 2)) ∧
+    uncompressedUniversalT (exView exHalf 3 4 8) ⟨.rgba, 1⟩ false 2 2 =
+      some (chunksRows exHalf 3 SrcConsts.UNIVERSAL_BUFFER_PIXELS 2) ∧
+    List.replicate 3 (exHalf * 2) ≠ chunksRows exHalf 3 SrcConsts.UNIVERSAL_BUFFER_PIXELS 2 ∧
+    Seeds.uncompressedUniversalT_C15g (exView exWide 3 4 0) ⟨.rgba, 1⟩ false 2 2 =
+      some (chunksContig (exWide * 3) SrcConsts.UNIVERSAL_BUFFER_PIXELS 2) ∧
+    ((Seeds.uncompressedUniversalT_C12i (exView (2 * exWide + 200) 2 4 8) ⟨.rgba, 1⟩ false 2 2).map List.sum).getD 0
+      < (2 * exWide + 200) * 2 * 2 ∧
+    (Seeds.uncompressedUniversalT_C12i (exView (2 * exWide + 200) 2 4 8) ⟨.rgba, 1⟩ false 2 2).isSome = true := by
   decide +kernel
 
 /-- **`uncompressed_universal_dither`.**  For every view, colour, encoded pixel of `size ≤ BUFFER_PIXELS · 8` bytes
@@ -761,13 +778,16 @@ theorem dither_loop_trapfree (v : View) (c : Color) (hv : VOK v c) (hc : c.OK) (
   exact ditherT_eq hv hc aligned ⟨hs, hs2⟩ ha hp k5 k3
 
 /-- 600 × 2 strided RGBA-U8 into a 3-byte format; a 1-pixel-wide image into `[u16; 4]`; the empty image; an encoded
-pixel of 5000 bytes (more than the staging buffer) or an alignment of 16 IS a panic of the mirror -/
+pixel larger than the staging buffer (`chunk_pixels = 0`) or more aligned than it IS a panic of the mirror -/
 example :
-    ditherT ⟨0, 4808, 600, 2, 4, 2408⟩ ⟨.rgba, 1⟩ false 3 1 1 = some [1536, 264, 1536, 264] ∧
-    ditherT ⟨0, 12, 1, 2, 4, 8⟩ ⟨.rgba, 1⟩ false 8 2 2 = some [8, 8] ∧
+    ditherT (exView 600 2 4 8) ⟨.rgba, 1⟩ false 3 1 1 =
+      some (chunksPerRow 600 2 (min SrcConsts.DITHER_BUFFER_PIXELS
+        (SrcConsts.DITHER_BUFFER_PIXELS * SrcConsts.DITHER_ENCODED_ELEM_BYTES / 3)) 3) ∧
+    ditherT (exView 1 2 4 4) ⟨.rgba, 1⟩ false 8 2 2 = some [8, 8] ∧
     ditherT ⟨0, 0, 0, 0, 4, 0⟩ ⟨.rgba, 1⟩ false 8 2 2 = some [] ∧
-    ditherT ⟨0, 12, 1, 2, 4, 8⟩ ⟨.rgba, 1⟩ false 5000 2 2 = none ∧
-    ditherT ⟨0, 12, 1, 2, 4, 8⟩ ⟨.rgba, 1⟩ false 8 16 2 = none := by
+    ditherT (exView 1 2 4 4) ⟨.rgba, 1⟩ false
+      (SrcConsts.DITHER_BUFFER_PIXELS * SrcConsts.DITHER_ENCODED_ELEM_BYTES + 1) 2 2 = none ∧
+    ditherT (exView 1 2 4 4) ⟨.rgba, 1⟩ false 8 (SrcConsts.DITHER_ENCODED_ELEM_BYTES + 1) 2 = none := by
   decide +kernel
 
 /-- **`uncompressed_universal_subsample` + `process_subsample`.**  For every view, colour and block width
@@ -788,17 +808,22 @@ theorem subsample_loop_trapfree (v : View) (c : Color) (hv : VOK v c) (hc : c.OK
   have : 1 * 1 ≤ SrcConsts.SUBSAMPLE_BUFFER_PIXELS / bw * bw := Nat.mul_le_mul hq1 (by omega)
   omega
 
-/-- 1025 × 2 strided RGBA-U8 into a 2×1 format of 4 bytes (two full chunks and a chunk of one pixel = one partial
-block per row); RGB-F32 of width 1 into R1_UNORM (8×1 blocks of 1 byte); a block width of 1 IS a panic
-(`assert!(block_width >= 2)`).  **Seed C10g** (`chunk_pixels = min(.., 4096 / bpp)`, odd for 12-byte pixels) does not
-panic, but its writes are not those of `EncLen.lean`: 2412 bytes instead of 2400 for 400 × 3 RGB-F32 → YUY2, so the
-equation of `subsample_loop_trapfree` fails for the mutated loop. -/
+/-- 1025 × 2 strided RGBA-U8 into a 2×1 format of 4 bytes (with the 512-pixel buffer: two full chunks and a chunk of
+one pixel = one partial block per row); RGB-F32 of width 1 into R1_UNORM (8×1 blocks of 1 byte); a block width of 1 IS
+a panic (`assert!(block_width >= 2)`).  **Seed C10g** (`chunk_pixels = min(.., 4096 / bpp)`, odd for 12-byte pixels)
+does not panic, but its writes are not those of `EncLen.lean`: more than the 2400 bytes of the surface for 400 × 3
+RGB-F32 → YUY2 (2412 with the 512-pixel buffer), so the equation of `subsample_loop_trapfree` fails for the mutated
+loop. -/
 example :
-    subsampleT ⟨0, 8203, 1025, 2, 4, 4103⟩ ⟨.rgba, 1⟩ false 2 4 1 = some [1024, 1024, 4, 1024, 1024, 4] ∧
-    subsampleT ⟨0, 27, 1, 2, 12, 15⟩ ⟨.rgb, 4⟩ false 8 1 1 = some [1, 1] ∧
-    subsampleT ⟨0, 27, 1, 2, 12, 15⟩ ⟨.rgb, 4⟩ false 1 1 1 = none ∧
-    Seeds.subsampleT_C10g ⟨0, 14400, 400, 3, 12, 4800⟩ ⟨.rgb, 4⟩ false 2 4 1 = some [684, 120, 684, 120, 684, 120] ∧
-    subsampleT ⟨0, 14400, 400, 3, 12, 4800⟩ ⟨.rgb, 4⟩ false 2 4 1 = some [800, 800, 800] ∧
+    subsampleT (exView 1025 2 4 7) ⟨.rgba, 1⟩ false 2 4 1 =
+      some (chunksSubsample 1025 2 (SrcConsts.SUBSAMPLE_BUFFER_PIXELS / 2 * 2) 2 4) ∧
+    subsampleT (exView 1 2 12 3) ⟨.rgb, 4⟩ false 8 1 1 = some [1, 1] ∧
+    subsampleT (exView 1 2 12 3) ⟨.rgb, 4⟩ false 1 1 1 = none ∧
+    (Seeds.subsampleT_C10g (exView 400 3 12 0) ⟨.rgb, 4⟩ false 2 4 1).isSome = true ∧
+    Seeds.subsampleT_C10g (exView 400 3 12 0) ⟨.rgb, 4⟩ false 2 4 1 ≠
+      some (chunksSubsample 400 3 (SrcConsts.SUBSAMPLE_BUFFER_PIXELS / 2 * 2) 2 4) ∧
+    ((Seeds.subsampleT_C10g (exView 400 3 12 0) ⟨.rgb, 4⟩ false 2 4 1).map List.sum).getD 0 > 2400 ∧
+    (subsampleT (exView 400 3 12 0) ⟨.rgb, 4⟩ false 2 4 1).map List.sum = some 2400 ∧
     (PixelInfo.block 4 2 1).surfIdeal 400 3 = 2400 := by
   decide +kernel
 
@@ -880,15 +905,15 @@ theorem split_view_trapfree (v : View) (c : Color) (hv : VOK v c) (sup : Option 
   obtain ⟨f, e1, e2, e3, e4, y, e5, e6, e7, _⟩ := h2 hi
   exact ⟨f, e1, e2, e3, e4, y, e5, e6, e7⟩
 
-/-- a 100 × 203 strided RGBA-U8 image as BC1 at quality High: 51 fragments of height 4 (the last of 3); fragment 50
+/-- a 100 × 203 strided RGBA-U8 image with BC1's support record (fragments of 2^12 / 2^8 / 2^8 pixels) at quality High: 51 fragments of height 4 (the last of 3); fragment 50
 starts at row 200; `get(51)` is `None`; cropping outside the image IS the documented panic -/
 example :
-    SplitView.newT 100 203 (some (supBc .colorAndAlpha bc1Frag)) .none .high = some ⟨100, 203, 51, some 4⟩ ∧
+    SplitView.newT 100 203 (some (supBc .colorAndAlpha (.fragment 12 8 8))) .none .high = some ⟨100, 203, 51, some 4⟩ ∧
     SplitView.getT ⟨100, 203, 51, some 4⟩ ⟨0, 82614, 100, 203, 4, 407⟩ 50 =
       some (some ⟨81400, 1214, 100, 3, 4, 407⟩) ∧
     SplitView.getT ⟨100, 203, 51, some 4⟩ ⟨0, 82614, 100, 203, 4, 407⟩ 51 = some none ∧
     croppedT ⟨0, 82614, 100, 203, 4, 407⟩ 0 200 100 4 = none ∧
-    (supBc .colorAndAlpha bc1Frag).WF := by
+    (supBc .colorAndAlpha (.fragment 12 8 8)).WF := by
   refine ⟨by decide +kernel, by decide +kernel, by decide +kernel, by decide +kernel, ?_⟩
   intro sh h
   simp only [supBc, Option.some.injEq] at h
@@ -931,7 +956,7 @@ theorem parallel_support_table : ∀ (f : C19.Format) (s : Support), supportOf f
 the same for the last (3 rows pad to one block row); together the 10 200 bytes of the surface -/
 example :
     (encodeParallelT (fun f => block4x4T f ⟨.rgba, 1⟩ 8 0) (.block 8 4 4) ⟨0, 82614, 100, 203, 4, 407⟩
-      (some (supBc .colorAndAlpha bc1Frag)) .none .high).map (fun ws => (ws.length, ws.sum)) = some (51, 10200) ∧
+      (some (supBc .colorAndAlpha (.fragment 12 8 8))) .none .high).map (fun ws => (ws.length, ws.sum)) = some (51, 10200) ∧
     (PixelInfo.block 8 4 4).surfIdeal 100 203 = 10200 := by
   decide +kernel
 
